@@ -2,7 +2,7 @@
    MilliCPUToShares / MilliCPUToQuota and the CFS / shares constants are the definitions
    regenerated from pkg/koordlet/util/system/cgroup.go (coq/Gen). *)
 From Coq Require Import List ZArith Bool Permutation.
-From Verif Require Import C14.Model C14.Spec C14.Proofs C14.Proofs_Conv C14.Proofs_Pod C14.Proofs_Main C14.Proofs_Model.
+From Verif Require Import C14.Model C14.Spec C14.Proofs C14.Proofs_Conv C14.Proofs_Pod C14.Proofs_Main C14.Proofs_Model C14.Rule C14.Codec C14.Proofs_Codec.
 Import ListNotations.
 Open Scope Z_scope.
 
@@ -63,9 +63,13 @@ Theorem c14_ratio_only_above_one : forall g cs, ratio g <= 100 -> run g cs = run
 Proof. exact ratio_only_above_one. Qed.
 Print Assumptions c14_ratio_only_above_one.
 
-(* above 1 the quota is the exact ceiling of quota / (r/100): positive, not larger *)
+(* above 1 the quota is ceil(float64(q) / float64(r/100)) in IEEE double arithmetic
+   (Lib.Float53): positive, not larger than q, the floor or the ceiling of q divided by the
+   double M/T nearest to r/100, hence within 2 of the exact decimal quotient 100 q / r *)
 Theorem c14_ratio_above_one : forall r q, 100 < r -> 0 < q ->
-  0 < scale_quota r q <= q /\ q * 100 <= r * scale_quota r q < q * 100 + r.
+  0 < scale_quota r q <= q
+  /\ ratio_mant r * (scale_quota r q - 1) < q * ratio_den r < ratio_mant r * (scale_quota r q + 1)
+  /\ (r / 100 < 2 ^ 53 -> q <= 2 ^ 52 -> 100 * q - 2 * r < r * scale_quota r q < 100 * q + 2 * r).
 Proof. exact ratio_above_one. Qed.
 Print Assumptions c14_ratio_above_one.
 
@@ -83,6 +87,32 @@ Print Assumptions c14_main.
 Theorem c14_only_d10 : forall g cs, prop_code g cs (run g cs) = 0 \/ d10_shape g cs (run g cs) = true.
 Proof. exact only_d10. Qed.
 Print Assumptions c14_only_d10.
+
+(* the same over the wire-level entry points the extracted runner executes: for EVERY integer
+   input the model's own observable passes the decision procedure or has a recorded finding
+   signature (1 = D10, 2 = stale ratio, 3 = both) *)
+Theorem c14_wire_main : forall inp,
+  prop_case inp (run_case inp) = 0 \/ In (finding_sig inp (run_case inp)) [1; 2; 3].
+Proof. exact wire_main. Qed.
+Print Assumptions c14_wire_main.
+
+Theorem c14_wire_main_listed : forall inp,
+  let '(g, gw, cs) := decode inp in
+  forallb listed cs = true -> ratio g = ratio gw -> prop_case inp (run_case inp) = 0.
+Proof. exact wire_main_listed. Qed.
+Print Assumptions c14_wire_main_listed.
+
+(* the first ratio a fresh rule sees always takes effect *)
+Theorem c14_rule_fresh : forall k,
+  ratio_of_state (rule_after [k]) = configured [k] /\ configured [k] = ratio_of_code k.
+Proof. exact rule_fresh. Qed.
+Print Assumptions c14_rule_fresh.
+
+(* ... a later one may not: 1.12 -> 1.13 differs by less than 0.01 in float64 and is ignored *)
+Theorem c14_rule_follows_node_refuted :
+  exists prev k, configured [prev; k] = k /\ 100 < k /\ ratio_of_state (rule_after [prev; k]) = prev /\ prev <> k.
+Proof. exact rule_stale_refuted. Qed.
+Print Assumptions c14_rule_follows_node_refuted.
 
 (* non-vacuity: hypotheses are satisfiable and the clauses are exercised *)
 Example c14_nonvacuous_main :
